@@ -147,7 +147,7 @@ func c12r1(c *RC) {
 				// only the discard pattern: the function found the task OK before
 				foundOK := false
 				ast.Inspect(fn.Body, func(m ast.Node) bool {
-					if be, ok := m.(*ast.BinaryExpr); ok && (be.Op == token.NEQ || be.Op == token.EQL) && expr(be.Y) == "TaskOk" && strings.HasSuffix(expr(be.X), ".state") && m.Pos() < a.Pos() {
+					if be, ok := m.(*ast.BinaryExpr); ok && (be.Op == token.NEQ || be.Op == token.EQL) && (expr(be.Y) == "TaskOk" && strings.HasSuffix(expr(be.X), ".state") || expr(be.X) == "TaskOk" && strings.HasSuffix(expr(be.Y), ".state")) && m.Pos() < a.Pos() {
 						foundOK = true
 					}
 					return true
@@ -167,10 +167,11 @@ func c12r1(c *RC) {
 					if !ok {
 						return true
 					}
-					be, ok := ast.Unparen(ifs.Cond).(*ast.BinaryExpr)
-					if !ok || be.Op != token.EQL || expr(be.Y) != "nil" {
+					tx, nn, okT := nilTest(ifs.Cond)
+					if !okT || nn {
 						return true
 					}
+					be := &ast.BinaryExpr{X: &ast.Ident{Name: tx}}
 					isLoc := false
 					ast.Inspect(fn.Body, func(q ast.Node) bool {
 						if as, ok := q.(*ast.AssignStmt); ok && len(as.Lhs) == 1 && len(as.Rhs) == 1 && expr(as.Lhs[0]) == expr(be.X) {
@@ -289,10 +290,8 @@ func c12r2(c *RC) {
 		guarded := true
 		fl.Walk(fl.Entry(), "", nil, Visitor{NoFacts: true,
 			Enter: func(from, to *cfg2Block, x string, s *Step) (string, bool) {
-				if be, ok := ast.Unparen(fl.edgeCond(from)).(*ast.BinaryExpr); ok && strings.HasSuffix(expr(be.X), ".state") && expr(be.Y) == "TaskOk" {
-					if be.Op == token.EQL && from.Succs[0] == to || be.Op == token.NEQ && from.Succs[1] == to {
-						return "ok", false
-					}
+				if _, ok := equalEdge(fl, from, to, func(x string) bool { return strings.HasSuffix(x, ".state") }, "TaskOk"); ok {
+					return "ok", false
 				}
 				return x, false
 			},
@@ -457,7 +456,12 @@ func c12r4(c *RC) {
 					})
 				}
 			}
-			if isNotOK || strings.HasSuffix(t, "==nil") {
+			isNil := false
+			if _, nn, okN := nilTest(ifs.Cond); okN && !nn {
+				isNil = true
+			}
+			_ = t
+			if isNotOK || isNil {
 				found = true
 				for _, k := range callsIn(ifs.Body) {
 					if fn.Pkg.CalleeName(k) == "sliceio.ErrReader" {
@@ -540,8 +544,25 @@ func c12r6(c *RC) {
 		ok := false
 		if len(fn.Body.List) > 0 {
 			if ifs, isIf := fn.Body.List[0].(*ast.IfStmt); isIf {
-				t := strings.ReplaceAll(expr(ifs.Cond), " ", "")
-				if strings.Contains(t, "Combiner.IsNil()") && strings.Contains(t, "CombineKey!=\"\"") && strings.Contains(t, "&&") && strings.HasPrefix(t, "!") {
+				// true exactly when the task has a combiner and a (shared) combine key
+				good := true
+				for _, combNil := range []bool{false, true} {
+					for _, keyEmpty := range []bool{false, true} {
+						v, known := evalCond(ifs.Cond, func(e ast.Expr) (bool, bool) {
+							if k, ok := ast.Unparen(e).(*ast.CallExpr); ok && strings.HasSuffix(expr(k.Fun), ".Combiner.IsNil") {
+								return combNil, true
+							}
+							if _, whenEq, ok := constTest(e, func(x string) bool { return strings.HasSuffix(x, ".CombineKey") }, `""`); ok {
+								return whenEq == keyEmpty, true
+							}
+							return false, false
+						})
+						if !known || v != (!combNil && !keyEmpty) {
+							good = false
+						}
+					}
+				}
+				if good {
 					for _, st := range ifs.Body.List {
 						if _, isRet := st.(*ast.ReturnStmt); isRet {
 							ok = true
